@@ -49,7 +49,7 @@ func C13(c *Ctx) {
 	r.Rule("R13.2", "undo-log discipline: every mutator of SimpleAccount/SimpleLedger that stores to dirty state (dirtyState, dirtyAccount.*, dirtyCode, suicided) appends a state change in the same invocation (or is reachable only from the revert functions / delegates to a caller that appends); the value captured for the undo record is read before the store; the ledger's changer object is never replaced while accounts point to it.")
 	r.Rule("R13.3", "prefix query key space: all keys indexing the merge map of SimpleAccount.Query are in one key space (database iterator keys carry the address prefix, dirty keys do not), and entries whose value is nil (deleted) are not emitted.")
 	r.Rule("R13.4", "cache fill and purge: FlushDirtyData adds the dirty accounts to the account cache on every path; the cache entry of an account is removed when its creation is reverted; the cache is purged on rollback (C12 R12.2).")
-	r.Rule("R13.5", "snapshots: RevertToSnapshot reverts the changer to the index recorded for the found revision and truncates the valid revisions to that revision's position; Snapshot records the current changer length.")
+	r.Rule("R13.5", "snapshots: RevertToSnapshot reverts the changer to the index recorded for the found revision and truncates the valid revisions to that revision's position; Snapshot records the current changer length; wherever the revision counter is restarted (nextRevisionId = constant) the recorded revisions are truncated on the same path.")
 	r.Rule("R13.6", "tombstones survive the undo: an entry of an account's dirty set, once written in a block, is never removed again (no Delete / LoadAndDelete / CompareAndDelete on dirtyState in internal/ledger) - the undo record holds only the previous value, not whether the key was dirty before, so a removed entry exposes the layers below, which differ from the recorded value whenever that was itself an earlier write or deletion of the block; storageChange.revert stores the recorded previous value (nil included) into the dirty set on every path.")
 	r.NotDecided = append(r.NotDecided, "LRU eviction behaviour; reopen; value-level equality over histories")
 
@@ -391,6 +391,37 @@ func C13(c *Ctx) {
 		r.Check(idx != nil && okRevert, "R13.5", "RevertToSnapshot: changer reverted to the recorded index", c.P.Pos(rts.Pos()), "changer.revert(l, validRevisions[idx].changerIndex)", "the undo log is not reverted to the position recorded for the requested snapshot")
 		r.Check(idx != nil && okTrunc, "R13.5", "RevertToSnapshot: later revisions discarded", c.P.Pos(rts.Pos()), "validRevisions = validRevisions[:idx]", "revisions taken after the reverted snapshot stay valid (a nested snapshot could be reverted to a state that no longer exists)")
 	}
+	// the two halves of the revision bookkeeping are reset together
+	nReset := 0
+	for _, fn := range c.P.ModuleFuncs(true) {
+		if core.PkgOf(fn) != ledgerPkg || len(fn.Blocks) == 0 {
+			continue
+		}
+		isValid := storesToField("SimpleLedger", "validRevisions")
+		for _, in := range sites(fn, storesToField("SimpleLedger", "nextRevisionId")) {
+			st := in.(*ssa.Store)
+			if _, isConst := st.Val.(*ssa.Const); !isConst {
+				continue // the increment of Snapshot
+			}
+			if _, _, base, _ := core.FieldOf(st.Addr); base != nil {
+				if _, fresh := core.Strip(base).(*ssa.Alloc); fresh {
+					continue // construction
+				}
+			}
+			nReset++
+			before := core.Reach([]core.Point{core.EntryOf(fn)}, isValid, nil)
+			after := core.Reach([]core.Point{core.After(in)}, isValid, nil)
+			escapes := false
+			for _, ret := range core.Returns(fn) {
+				if after.Has(ret) {
+					escapes = true
+				}
+			}
+			r.Check(!(before.Has(in) && escapes), "R13.5", shortLedger(fn)+": revision ids and revision records are reset together", c.P.Pos(in.Pos()), "every path that restarts nextRevisionId also truncates validRevisions",
+				"a path restarts the revision ids (nextRevisionId = 0) without discarding the recorded revisions: the next transaction hands out ids that are still in validRevisions, RevertToSnapshot finds the stale record and reverts to the wrong journal position (writes made before an inner snapshot are lost)")
+		}
+	}
+	r.Floor("R13.5", "resets of the revision counter", nReset, 1)
 	if sn := c.fn("R13.5", "internal/ledger.(*SimpleLedger).Snapshot"); sn != nil {
 		ok := false
 		for _, call := range core.Calls(sn) {
